@@ -727,3 +727,16 @@ def fam_trig(tier):
     g = dict(id="tg0", text="\n".join(lines), alphabet=cps("ab! x"), maxlen=2 if tier == "quick" else 3, inputs=[cps(x) for x in ins],
              entries=["t1", "t2", "t3", "t4", "t5", "t6", "t8", "t9", "t10", "t11", "t12", "t13", "t14", "t15"])
     return [g]
+
+
+def fam_rawkinds(tier):
+    """rule kinds around counted repetitions and e+, for the raw-AST path (pest_optimizer = false: RepeatMinMax / RepeatMin<_,1>
+    nodes carry their own SKIP argument): a `!` rule switches implicit skipping back on inside `@` / `$` callers, directly and
+    through normal / silent rules; atomic and compound rules keep it off."""
+    lines = ['WHITESPACE = _{ " " }', 'x = { "x" }', 'e = !{ x{2} }', 'e2 = !{ x{1,2} ~ "." }', 'e3 = !{ x+ ~ "." }', 'e4 = !{ x{,2} ~ "." }', 'e5 = !{ x{2,} }',
+             'c = ${ "[" ~ e ~ "]" }', 'a = @{ "[" ~ e2 ~ "]" }', 'n = ${ "[" ~ mid ~ "]" }', 'mid = { e3 }', 's = @{ "[" ~ sil ~ "]" }', 'sil = _{ e4 | e5 }',
+             'top = { "[" ~ e ~ "]" }', 'atm = @{ x{2} ~ "."? }', 'cmpd = ${ x{2} ~ e? }', 'nrm = { x{2,3} ~ c? }']
+    g = dict(id="rk0", text="\n".join(lines), alphabet=cps("x [."), maxlen=3 if tier == "quick" else 4, opts={"pest_optimizer": False},
+             inputs=[cps(t) for t in ["[x x]", "[xx]", "[x x.]", "[ x x ]", "[x  x x.]", "[xx.]", "x x", "xx.", "[x x x]", "[x x .]", "xx x x", "x x[x x]", "xx[xx]", "[x.]", "[ x.]", "[.]", "[ .]"]],
+             entries=["e", "e2", "e3", "c", "a", "n", "s", "top", "atm", "cmpd", "nrm"])
+    return [g]
